@@ -123,7 +123,7 @@ def measure_cases(ctx, quick, n_cases=None, seeds=None):
         try:
             envs['boundary-mps'] = fpeps.EnvBoundaryMPS(psi, opts_svd=opts_svd, setup='lrtb')
             ctm = fpeps.EnvCTM(psi, init='dl')
-            if max(dims) > 2:
+            for _ in range(max(dims) - 2):      # init='dl' reaches the nearest neighbours, every expansion one layer further
                 ctm.expand_outward_()
             envs['ctm'] = ctm
             if min(dims) == 1:
